@@ -2,6 +2,7 @@ package main
 
 import (
 	"fmt"
+	"go/token"
 	"go/types"
 	"strings"
 
@@ -123,7 +124,7 @@ var allowedSentinels = map[string]string{
 	"github.com/dgraph-io/badger/v4.ErrKeyNotFound": "adapter maps not-found to (nil, nil)",
 }
 
-func sentinelAllowed(target ssa.Value) bool {
+func (c *Ctx) sentinelAllowed(target ssa.Value) bool {
 	g := globalLoad(target)
 	if g == nil {
 		return false
@@ -133,6 +134,11 @@ func sentinelAllowed(target ssa.Value) bool {
 		if strings.HasSuffix(n, suf) {
 			return true
 		}
+	}
+	// an unexported package-level error of the library is an internal control signal: it can
+	// neither come from the store nor be observed by callers (e.g. "roll back, report success")
+	if g.Pkg != nil && c.LibPkgs[g.Pkg.Pkg.Path()] != nil && g.Object() != nil && !g.Object().Exported() {
+		return true
 	}
 	return false
 }
@@ -159,8 +165,21 @@ func ruleERR2(c *Ctx) []Ob {
 				}
 				return
 			}
+			// err == sentinel / err != sentinel
+			if bo, ok := cond.(*ssa.BinOp); ok && (bo.Op == token.EQL || bo.Op == token.NEQ) && isErrorType(bo.X.Type()) {
+				for _, pair := range [][2]ssa.Value{{bo.X, bo.Y}, {bo.Y, bo.X}} {
+					if g := globalLoad(pair[1]); g != nil && (bo.Op == token.EQL) == e.Branch {
+						if c.sentinelAllowed(pair[1]) {
+							allowedEdges = append(allowedEdges, e)
+						} else {
+							trigs = append(trigs, trig{e, pair[0], describeValue(c, pair[0]) + " == " + g.Name()})
+						}
+						return
+					}
+				}
+			}
 			if ev, target, ok := errorsIsCall(cond); ok && e.Branch {
-				if sentinelAllowed(target) {
+				if c.sentinelAllowed(target) {
 					allowedEdges = append(allowedEdges, e)
 				} else {
 					trigs = append(trigs, trig{e, ev, "errors.Is(" + describeValue(c, ev) + ", " + describeValue(c, target) + ")"})
